@@ -616,6 +616,37 @@ class Lib:
             return self.base(ret) + " " + d
         raise ValueError(ty)
 
+    # ---- C layout of a (monomorphised) type, as the Rust side lays it out: zero-sized / opaque items take no space
+    PRIM_SIZE = {"u8": 1, "i8": 1, "bool": 1, "c_char": 1, "u16": 2, "i16": 2, "u32": 4, "i32": 4, "f32": 4,
+                 "u64": 8, "i64": 8, "f64": 8, "usize": 8, "isize": 8}
+
+    def size_align(self, ty):
+        """-> (size, align) or None when the type mentions something this model cannot size (placeholders, c_void by value)."""
+        k = ty[0]
+        if k in ("ptr", "fn"):
+            return (8, 8)
+        if k == "prim":
+            n = self.PRIM_SIZE.get(ty[1])
+            return None if n is None else (n, n)
+        if ty[2]:
+            return None  # generic spelling: only monomorphised (C) libraries are sized
+        it = self.items.get(ty[1])
+        if it is None:
+            return None
+        if it["kind"] == "opaque":
+            return (0, 1)
+        if it["kind"] == "typedef":
+            return self.size_align(it["aliased"])
+        off, al = 0, 1
+        for _, t in it["fields"]:
+            sa = self.size_align(t)
+            if sa is None:
+                return None
+            s, a = sa
+            off = (off + a - 1) // a * a + s
+            al = max(al, a)
+        return ((off + al - 1) // al * al, al)
+
     # ---- writers
     def doc(self, it):
         if not it.get("doc"):
